@@ -485,6 +485,53 @@ func rulePairReset(c *Ctx, dv *dev, at actionTable) {
 			}
 		}
 	}
+	var noReset []*Path
+	var pairsSeen [][2]string
+	defer func() {
+		// a path that resets nothing must have seen, for every pair, that one of its two actions is not held - or that fewer
+		// than two actions are held at all. A guard such as `len(actionTracker) == 2` lets the path through with both keys of
+		// a pair down as soon as any other action key (cc_learning, multinote) is held as well: the pair does not reset
+		bad := ""
+		for _, p := range noReset {
+			notHeld := map[string]bool{}
+			lenHi := int64(1 << 40)
+			for _, a := range p.Atoms {
+				cnd, taken := a.Cond, a.Taken
+				for cnd.Op == "unop" {
+					cnd, taken = cnd.Args[0], !taken
+				}
+				if cnd.Op == "lookup" && dv.isFieldLoad(cnd.Args[0], "actionTracker") && !taken {
+					if s, ok := cnd.Args[1].StripConv().IsStringConst(); ok {
+						notHeld[s] = true
+					}
+				}
+				if op, x, y, ok := normAtom(a); ok {
+					if _, isK := x.IsConst(); isK {
+						x, y, op = y, x, flipOp(op)
+					}
+					if k, isK := y.IsIntConst(); isK && x.Op == "len" && dv.isFieldLoad(x.Args[0], "actionTracker") {
+						switch op {
+						case "<":
+							lenHi = min(lenHi, k-1)
+						case "<=", "==":
+							lenHi = min(lenHi, k)
+						}
+					}
+				}
+			}
+			if lenHi <= 1 {
+				continue
+			}
+			for _, pr := range pairsSeen {
+				if !notHeld[pr[0]] && !notHeld[pr[1]] && bad == "" {
+					bad = fmt.Sprintf("a path resets nothing although it has not seen that one of (%s, %s) is not held, nor that fewer than two actions are held (%s): with a further action key held as well, pressing both keys of the pair steps the parameter instead of resetting it", pr[0], pr[1], atomsString(p))
+				}
+			}
+		}
+		if len(pairsSeen) > 0 {
+			c.Check(bad == "", "R4.7", "device.checkDoubleActions/no-reset-only-without-a-complete-pair", pos, fmt.Sprintf("%d path(s) without reset: each has seen every pair incomplete or fewer than two actions held", len(noReset)), bad)
+		}
+	}()
 	for _, p := range paths {
 		if p.End != "return" {
 			c.Bad("R4.7", "device.checkDoubleActions/ends", pos, "path ends with "+p.End)
@@ -521,6 +568,7 @@ func rulePairReset(c *Ctx, dv *dev, at actionTable) {
 			if ret {
 				c.Bad("R4.7", "device.checkDoubleActions/true-without-reset", pos, "returns true (swallowing the action) on a path that resets nothing")
 			}
+			noReset = append(noReset, p)
 			continue
 		}
 		if len(called) != 1 || resets[called[0]] == "" {
@@ -546,6 +594,7 @@ func rulePairReset(c *Ctx, dv *dev, at actionTable) {
 			c.Bad("R4.7", key, pos, fmt.Sprintf("reset is conditioned on %v, expected exactly two held actions", held))
 			continue
 		}
+		pairsSeen = append(pairsSeen, [2]string{held[0], held[1]})
 		f1, d1 := writerOf(at.press[held[0]])
 		f2, d2 := writerOf(at.press[held[1]])
 		if f1 != field || f2 != field || d1+d2 != 0 || d1 == 0 {
